@@ -9,13 +9,14 @@ Abs(x) == IF x < 0 THEN -x ELSE x
 Norm(n, d) == LET g == GCD(Abs(n), Abs(d)) s == IF d < 0 THEN -1 ELSE 1
               IN IF n = 0 THEN <<0, 1>> ELSE <<s * (n \div g), s * (d \div g)>>
 Rat(n) == <<n, 1>>
-RAdd(x, y) == Norm(x[1] * y[2] + y[1] * x[2], x[2] * y[2])
+\* addition over the least common denominator (keeps intermediates small)
+RAdd(x, y) == LET g == GCD(x[2], y[2]) IN Norm(x[1] * (y[2] \div g) + y[1] * (x[2] \div g), (x[2] \div g) * y[2])
 RNeg(x) == <<-x[1], x[2]>>
 RSub(x, y) == RAdd(x, RNeg(y))
 RMul(x, y) == LET a == Norm(x[1], y[2]) b == Norm(y[1], x[2]) IN Norm(a[1] * b[1], a[2] * b[2])
 RInv(x) == IF x[1] < 0 THEN <<-x[2], -x[1]>> ELSE <<x[2], x[1]>>
 RDiv(x, y) == RMul(x, RInv(y))
-RLt(x, y) == x[1] * y[2] < y[1] * x[2]
+RLt(x, y) == LET g == GCD(x[2], y[2]) IN x[1] * (y[2] \div g) < y[1] * (x[2] \div g)
 RAbs(x) == <<Abs(x[1]), x[2]>>
 RECURSIVE IPow(_, _)
 IPow(b, e) == IF e = 0 THEN 1 ELSE b * IPow(b, e - 1)
